@@ -74,13 +74,25 @@ def failure_key(f):
 def run_cases(pid, cases, tag):
     mon, fields = CFG[pid]
     results, st = syscorr.run_both(cases, tag)
+    xmap = {}
+    try:
+        for l in open(st["casefile"] + ".orc"):
+            f = l.split()
+            if f and f[0] == "cidr" and len(f) == 4:
+                xmap[f[1]] = f[2]
+    except OSError:
+        pass
+    XMAP.update(xmap)
     out = []
     for cid, lines, iobs, mobs in results:
         mm = syscorr.first_mismatch(lines, iobs, mobs, fields)
-        t = sysmon.Trace(cid, lines, iobs)
+        t = sysmon.Trace(cid, lines, iobs, xmap)
         fails = mon(t)
         out.append((cid, lines, mm, fails))
     return out, st
+
+
+XMAP = {}
 
 
 def shrink(pid, lines, pred_key, kind, budget=10):
@@ -93,7 +105,7 @@ def shrink(pid, lines, pred_key, kind, budget=10):
         ok = []
         for (cid, ls, iobs, mobs) in res:
             if kind == "monitor":
-                t = sysmon.Trace(cid, ls, iobs)
+                t = sysmon.Trace(cid, ls, iobs, XMAP)
                 ok.append(any(failure_key(f) == pred_key for f in mon(t)))
             else:
                 mm = syscorr.first_mismatch(ls, iobs, mobs, fields)
